@@ -543,6 +543,7 @@ func runIsolation(c *ICase) (string, bool) {
 	}
 	counts := map[string]int{}
 	for _, line := range out.lines {
+		line = zerolog.VerifDecodeIfBinaryToBytes(line) // JSON in either build
 		n, err := jsonref.ValidateLine(line)
 		if err != nil {
 			return fmt.Sprintf("unparseable event %q: %v", line, err), overlapped >= 2
